@@ -440,6 +440,8 @@ FN[r'rcu_list::rcu_guard::unlock'] = dict(
   __CPROVER_assert(any_owned || (g_rec_frees == (int)nrec && g_node_frees == n_zombies && g_node_destroys == n_zombies && own->next.v == 0 && g_next_written),
                    "[C13] with no older guard alive every older record and every erased node is destroyed and freed exactly once, and the own record is cut off from them first");
   __CPROVER_assert(n_zombies > 0 || g_node_destroys == 0, "[C13] with nothing erased, releasing a handle destroys no element");
+  __CPROVER_assert(!any_owned || own->next.v == (void *)older,
+                   "[C13] while an older guard is still registered the log stays intact: the released record still links to every older record (a skipped record could never be reclaimed: leak)");
 ''' % D)
 
 FN[r'rcu_list::dtor'] = dict(
